@@ -464,7 +464,9 @@ pub fn deviations(img: &[u8], l: &Layout) -> Vec<Deviation> {
         name[0] = b'R';
         out.push(dev("wrong-root-name", "root entry named \"R\"".into(), vec![(r.offset, name), (r.offset + 64, vec![4, 0])]));
         // names that are ALMOST right: another letter case, one unit short, one unit long
-        for wrong in ["ROOT ENTRY", "root entry", "Root entry", "Root Entr", "Root Entry2"] {
+        // ... and names that would not even be valid for an ordinary object (the stored root name is
+        // documented as ignored entirely): separator characters, empty, 31 units, outside the BMP
+        for wrong in ["ROOT ENTRY", "root entry", "Root entry", "Root Entr", "Root Entry2", "Root:Entry", "Root/Entry", "a\\b", "!", "", "R\u{10400}\u{1F600}t", "0123456789012345678901234567890"] {
             let mut name = vec![0u8; 64];
             for (i, u) in wrong.encode_utf16().enumerate() {
                 name[2 * i..2 * i + 2].copy_from_slice(&u.to_le_bytes());
